@@ -31,6 +31,7 @@ follow ITS configuration; key = "session:neighbour-own-page[-later]:<Part A key>
 Part D (overlapping renderings): 2-3 real threads render on ONE Ribosome under rv.sched (switches at every read /
 write of an instance field of the renderer); each result must be its own expansion; key = "overlap:<Part A key>".
 """
+import inspect
 import sys
 
 from rv import core
@@ -101,25 +102,24 @@ def _classes():
     if not _MON:
         from operon_ai.organelles.ribosome import Ribosome, mRNA
 
-        class MonRibosome(Ribosome):
-            """The real renderer; the four anchored passes only gain reach counters."""
-            reach = {}
+        # Informational only (never required, never consulted by a verdict): how often each private helper of the
+        # renderer was entered, WHATEVER the helpers are called on this tree. Every plain function of the class body
+        # whose name starts with one underscore gets a counting pass-through; no name is hard-coded.
+        def counting(name):
+            key = "reach:" + name
 
-            def _process_conditionals(self, *a, **kw):
-                self.reach["reach:_process_conditionals"] = self.reach.get("reach:_process_conditionals", 0) + 1
-                return super()._process_conditionals(*a, **kw)
+            def passthrough(self, *a, **kw):
+                MonRibosome.reach[key] = MonRibosome.reach.get(key, 0) + 1
+                return getattr(super(MonRibosome, self), name)(*a, **kw)
+            passthrough.__name__ = name
+            return passthrough
 
-            def _process_loops(self, *a, **kw):
-                self.reach["reach:_process_loops"] = self.reach.get("reach:_process_loops", 0) + 1
-                return super()._process_loops(*a, **kw)
-
-            def _process_includes(self, *a, **kw):
-                self.reach["reach:_process_includes"] = self.reach.get("reach:_process_includes", 0) + 1
-                return super()._process_includes(*a, **kw)
-
-            def _process_variables(self, *a, **kw):
-                self.reach["reach:_process_variables"] = self.reach.get("reach:_process_variables", 0) + 1
-                return super()._process_variables(*a, **kw)
+        MonRibosome = type("MonRibosome", (Ribosome,), {
+            "__doc__": "The real renderer; its private helpers only gain (informational) reach counters.",
+            "reach": {}})
+        for name, fn in list(vars(Ribosome).items()):
+            if name.startswith("_") and not name.startswith("__") and inspect.isfunction(fn):
+                setattr(MonRibosome, name, counting(name))
 
         _MON["Ribosome"] = MonRibosome
         _MON["mRNA"] = mRNA
@@ -180,9 +180,10 @@ def plan(tier):
                 "partc_unknown_include_is_template_of_other_renderer": 120,
                 "partd_schedules": 100, "partd_schedules_interleaved": 70, "partd_renders": 300,
                 "partd_text_compared": 250, "partd:ref_include_depth1": 500,
-                # anchored passes of the real renderer entered
-                "reach:_process_conditionals": 200000, "reach:_process_loops": 200000,
-                "reach:_process_includes": 200000, "reach:_process_variables": 200000,
+                # the real renderer's handling of each construct family exercised AND found conforming (behavioural: keyed
+                # to results this check judged; the informational reach:<private helper> counters are never required)
+                "conforming_render_expanded:conditional": 25000, "conforming_render_expanded:loop": 25000,
+                "conforming_render_expanded:include": 25000, "conforming_render_expanded:variable": 25000,
             }}
 
 
@@ -326,6 +327,13 @@ def assess(ctx, templates, filters, res, bind, strict, via, prefix="", quiet=Fal
             mech += ":" + (localise(ctx, templates, bind, strict, via) if seen < 60 else "not-localised")
         return fail(mech, "rendered text differs from the single-pass expansion",
                     expected=M.concrete(parts), actual=text, warnings=warnings)
+    if not quiet:
+        # The real output IS the expansion: every construct kind the expansion evaluated was expanded by the real renderer
+        # (the constructs' source text contains delimiters, the expected text of a judged case contains none of them).
+        # Behavioural evidence that the renderer's conditional / loop / include / variable handling was exercised and
+        # judged, independent of how the renderer names or structures those steps internally.
+        for kind in expanded_kinds(ref.stats):
+            ctx.count("conforming_render_expanded:" + kind)
     if not strict:
         for v in sorted(set(ref.missing)):
             if not quiet and part_a:
@@ -336,6 +344,23 @@ def assess(ctx, templates, filters, res, bind, strict, via, prefix="", quiet=Fal
     if not quiet and part_a:
         ctx.count(cn("unknown_include_checked"), len(ref.unknown))
     return None
+
+
+_KIND_STATS = {
+    "conditional": ("ref_if_true", "ref_if_false", "ref_else_taken"),
+    "loop": ("ref_each",),
+    "include": ("ref_include_depth1", "ref_include_unknown"),
+    "variable": ("ref_var_bound", "ref_var_missing", "ref_loop_bound_var", "ref_dot", "ref_opt_bound", "ref_opt_missing",
+                 "ref_def_bound", "ref_def_used"),
+}
+
+
+def expanded_kinds(stats):
+    """Construct kinds the reference expansion evaluated at least once (from the reference's own statistics)."""
+    kinds = [kind for kind, keys in _KIND_STATS.items() if any(stats.get(k) for k in keys)]
+    if "variable" not in kinds and any(k.startswith("ref_filter_") and v for k, v in stats.items()):
+        kinds.append("variable")
+    return kinds
 
 
 def localise(ctx, templates, bind, strict, via):
